@@ -206,6 +206,14 @@ def main(argv=None):
                 "--sub", str(k), "--nsub", str(nsub), "--budget", str(budget), "--out", out,
             ]
             jobs.append((cmd, out))
+    if not a.replay:
+        # replay files of earlier runs of this property are stale
+        for fn in os.listdir(REPLAYS):
+            if fn.startswith(prop + "-"):
+                try:
+                    os.remove(os.path.join(REPLAYS, fn))
+                except OSError:
+                    pass
     procs = []
     for cmd, out in jobs:
         if os.path.exists(out):
